@@ -35,12 +35,17 @@ def _attr_of_size_fn(tu, fname):
 
 def _size_source(fn, var, tu):
     """max_* attribute behind local `var` (initialised from a helper call)"""
+    srcs = set()
     for n in fn.walk():
-        if n.k == "VarDecl" and n.n == var and n.kids:
+        c = None
+        if n.k == "VarDecl" and n.n == var and n.kids and n.kids[-1].k != "Absent":
             c = strip(n.kids[-1])
-            if c is not None and c.k == "CallExpr" and callee(c)[0] == "fn":
-                return _attr_of_size_fn(tu, callee(c)[1])
-    return None
+        elif n.k == "BinaryOperator" and n.v == "=" and path(n.kids[0]) == var:
+            c = strip(n.kids[1])
+        if c is not None and c.k == "CallExpr" and callee(c)[0] == "fn":
+            srcs.add(_attr_of_size_fn(tu, callee(c)[1]))
+    srcs.discard(None)
+    return srcs.pop() if len(srcs) == 1 else None
 
 
 def c_facts(tu):
